@@ -235,9 +235,9 @@ func c10SrvOutcome(e *c10Env, name, input string, rt *c10RT, run c10Run) string 
 		e.x.r.Violate(rep.Violation{Kind: "oracle", Check: "C10.no-hang", Signature: "C10.hang:" + name, Input: input, Impl: "no return within the watchdog", PropertyFails: true})
 		return "hang"
 	}
-	if rt.srvAlloc > c10AllocBound(len(rt.wire)) {
+	if rt.srvAlloc > c10AllocBoundAt(name, len(rt.wire)) {
 		e.x.r.Violate(rep.Violation{Kind: "oracle", Check: "C10.alloc-bound", Signature: "C10.alloc:" + name + ":crafted", Input: input,
-			Impl: fmt.Sprintf("server allocated %d bytes handling a %d-byte request (bound %d)", rt.srvAlloc, len(rt.wire), c10AllocBound(len(rt.wire))), PropertyFails: true})
+			Impl: fmt.Sprintf("server allocated %d bytes handling a %d-byte request (bound %d)", rt.srvAlloc, len(rt.wire), c10AllocBoundAt(name, len(rt.wire))), PropertyFails: true})
 	}
 	c10CheckAnswer(e, name, input, rt.reqType, rt.status, rt.respType, rt.respBody, "crafted")
 	if rt.respType == "255" {
@@ -677,6 +677,10 @@ func c10Resigned(e *c10Env, cw *c10World) {
 			p.Payload.Val.KeyExchangeA[i] = 0xff
 		}
 	})
+	for _, v := range c10ECDHParams() {
+		v := v
+		alter61("kex-ecdh-"+v.what, func(p *pt) { p.Payload.Val.KeyExchangeA = v.b })
+	}
 	alter61("entries-0", func(p *pt) { p.Payload.Val.NumOVEntries = 0 })
 	alter61("entries-255", func(p *pt) { p.Payload.Val.NumOVEntries = 255 })
 	alter61("hmac-alg-4711", func(p *pt) { p.Payload.Val.OVHHmac.Algorithm = 4711 })
@@ -735,6 +739,10 @@ func c10Resigned(e *c10Env, cw *c10World) {
 		alterTok(q.proto, q.t, "fdo-claim-kex-1", func(t *et) { t.Payload.Val[L(fdoL)] = []any{[]byte{0}} })
 		alterTok(q.proto, q.t, "fdo-claim-kex-ffff", func(t *et) { t.Payload.Val[L(fdoL)] = []any{bytes.Repeat([]byte{0xff}, 200)} })
 		alterTok(q.proto, q.t, "fdo-claim-kex-60000", func(t *et) { t.Payload.Val[L(fdoL)] = []any{make([]byte, 60000)} })
+		for _, v := range c10ECDHParams() {
+			v := v
+			alterTok(q.proto, q.t, "fdo-claim-kex-ecdh-"+v.what, func(t *et) { t.Payload.Val[L(fdoL)] = []any{v.b} })
+		}
 		alterTok(q.proto, q.t, "setup-nonce-header-absent", func(t *et) { delete(t.Unprotected, L(unpL)) })
 		alterTok(q.proto, q.t, "setup-nonce-header-int", func(t *et) {
 			if t.Unprotected == nil {
@@ -744,4 +752,44 @@ func c10Resigned(e *c10Env, cw *c10World) {
 		})
 		alterTok(q.proto, q.t, "claims-empty", func(t *et) { t.Payload.Val = fdo.VerifEAToken{} })
 	}
+}
+
+// c10ECDHParams: byte strings shaped like an ECDH key-exchange parameter (three 16-bit length-prefixed
+// fields: x, y, random) whose fields have impossible or unequal sizes.
+func c10ECDHParams() []struct {
+	what string
+	b    []byte
+} {
+	f := func(parts ...[]byte) []byte {
+		var out []byte
+		for _, p := range parts {
+			out = append(out, byte(len(p)>>8), byte(len(p)))
+			out = append(out, p...)
+		}
+		return out
+	}
+	ff := func(n int) []byte { return bytes.Repeat([]byte{0xff}, n) }
+	var out []struct {
+		what string
+		b    []byte
+	}
+	add := func(what string, b []byte) {
+		out = append(out, struct {
+			what string
+			b    []byte
+		}{what, b})
+	}
+	for _, n := range []int{32, 48} {
+		sfx := fmt.Sprintf("-p%d", n*8)
+		add("x-1-byte"+sfx, f([]byte{5}, ff(n), make([]byte, 16)))
+		add("y-1-byte"+sfx, f(ff(n), []byte{5}, make([]byte, 16)))
+		add("x-empty"+sfx, f(nil, ff(n), make([]byte, 16)))
+		add("both-empty"+sfx, f(nil, nil, make([]byte, 16)))
+		add("x-longer"+sfx, f(ff(n+1), ff(n), make([]byte, 16)))
+		add("y-longer"+sfx, f(ff(n), ff(n+7), make([]byte, 16)))
+		add("random-empty"+sfx, f(ff(n), ff(n), nil))
+		add("zero-point"+sfx, f(make([]byte, n), make([]byte, n), make([]byte, 16)))
+		add("lengths-beyond-end"+sfx, append(f(ff(n)), 0xff, 0xff, 1, 2, 3))
+	}
+	return out
 }
